@@ -1,2 +1,4 @@
 pub mod prep;
+pub mod sniff;
+pub mod templates;
 pub mod problems;
